@@ -55,7 +55,7 @@ def _concrete(v, depth=0):
         return True
     if isinstance(v, dict):
         return True
-    if type(v).__name__ in ('list_iterator', 'dict_keyiterator', 'dict_valueiterator', 'dict_itemiterator', 'tuple_iterator', 'set_iterator', 'dict_keys', 'dict_values', 'dict_items'):
+    if type(v).__name__ in ('list_iterator', 'dict_keyiterator', 'dict_valueiterator', 'dict_itemiterator', 'tuple_iterator', 'set_iterator', 'dict_keys', 'dict_values', 'dict_items', 'generator'):
         return True
     if isinstance(v, tuple):
         return not (v and isinstance(v[0], str) and v[0] in ('class', 'ext', 'kind', 'closure', 'unbound', 'classayns', 'super', 'super_ayns', 'dictmethod', 'listmethod', 'strmethod', 'builtinmethod', 'objdictmethod', 'noop', 'dictdisplay'))
@@ -107,6 +107,25 @@ class _Continue(Exception):
 
 class _Break(Exception):
     pass
+
+
+_ITER_TYPES = ('list_iterator', 'tuple_iterator', 'dict_keyiterator', 'dict_itemiterator', 'dict_valueiterator', 'set_iterator', 'list_reverseiterator',
+               'enumerate', 'zip', 'generator')
+
+
+def _lazy_ok(fn):
+    """generator bodies the lazy evaluation models: yields at statement level, outside try / with"""
+    for n in ast.walk(fn):
+        if isinstance(n, (ast.Yield, ast.YieldFrom)):
+            par = getattr(n, '_parent', None)
+            if not isinstance(par, ast.Expr):
+                return False
+            q = par
+            while q is not fn and q is not None:
+                if isinstance(q, (ast.Try, ast.With)):
+                    return False
+                q = getattr(q, '_parent', None)
+    return True
 
 
 class Yielded(Exception):
@@ -186,6 +205,9 @@ class FDE:
         self.externals = {}      # dotted name -> python object (stdlib classes used in isinstance tests)
         self.generators = False  # True: a call of a generator function evaluates to the list of the values it yields
         self._yields = []
+        self._eager_node = None
+        self._gen_once = False
+        self.free = {}           # free name -> plain value (e.g. a model of __builtins__)
         self.extcalls = {}       # dotted name -> python callable standing in for an external function (e.g. inspect.signature)
 
     # -- public --------------------------------------------------------------------------
@@ -242,7 +264,11 @@ class FDE:
             elif a.kwarg is not None:
                 env[a.kwarg.arg] = {}
             body = fi.node.body if isinstance(fi.node.body, list) else [ast.Return(value=fi.node.body)]
-            gen = self.generators and isinstance(fi.node.body, list) and _is_generator_fn(fi.node)
+            once, self._gen_once = self._gen_once, False
+            gen = (self.generators or once) and isinstance(fi.node.body, list) and _is_generator_fn(fi.node)
+            if not gen and isinstance(fi.node.body, list) and _is_generator_fn(fi.node) and not fi.is_contextmanager and _lazy_ok(fi.node):
+                # a generator function: its body runs lazily, interleaved with its consumer, as in Python
+                return self._gen_top(fi.node.body, env, fi)
             if gen:
                 self._yields.append([])
             try:
@@ -356,7 +382,7 @@ class FDE:
                 it = self._ev(s.iter, env, fi)
                 if isinstance(it, (dict, set)):
                     it = list(it)
-                if not isinstance(it, (list, tuple)) and type(it).__name__ not in ('list_iterator', 'tuple_iterator', 'dict_keyiterator', 'dict_itemiterator', 'dict_valueiterator', 'set_iterator', 'list_reverseiterator', 'enumerate', 'zip'):
+                if not isinstance(it, (list, tuple)) and type(it).__name__ not in _ITER_TYPES:
                     raise Unsupported('for over non-concrete iterable: %s' % unparse(s.iter))
                 broke = False
                 for x in it:
@@ -415,6 +441,66 @@ class FDE:
             else:
                 raise Unsupported('statement %s in %s' % (type(s).__name__, fi.qualname))
 
+    def _gen_top(self, stmts, env, fi):
+        try:
+            yield from self._run_gen(stmts, env, fi)
+        except _Return:
+            return
+
+    def _run_gen(self, stmts, env, fi):
+        """body of a generator function as a Python generator: yields where the source yields (compound statements recurse,
+        simple statements are evaluated by _run)"""
+        for s in stmts:
+            if isinstance(s, ast.Expr) and isinstance(s.value, ast.Yield):
+                yield (self._ev(s.value.value, env, fi) if s.value.value is not None else None)
+            elif isinstance(s, ast.Expr) and isinstance(s.value, ast.YieldFrom):
+                v = self._ev(s.value.value, env, fi)
+                if isinstance(v, (dict, set)):
+                    v = list(v)
+                if not isinstance(v, (list, tuple)) and type(v).__name__ not in _ITER_TYPES:
+                    raise Unsupported('yield from a non-concrete iterable')
+                yield from v
+            elif not any(isinstance(n, (ast.Yield, ast.YieldFrom)) for n in ast.walk(s)):
+                self._run([s], env, fi)
+            elif isinstance(s, ast.If):
+                yield from self._run_gen(s.body if self._truth(self._ev(s.test, env, fi)) else s.orelse, env, fi)
+            elif isinstance(s, ast.For):
+                it = self._ev(s.iter, env, fi)
+                if isinstance(it, (dict, set)):
+                    it = list(it)
+                if not isinstance(it, (list, tuple)) and type(it).__name__ not in _ITER_TYPES:
+                    raise Unsupported('for over non-concrete iterable: %s' % unparse(s.iter))
+                broke = False
+                for x in it:
+                    self._assign(s.target, x, env, fi)
+                    try:
+                        yield from self._run_gen(s.body, env, fi)
+                    except _Continue:
+                        continue
+                    except _Break:
+                        broke = True
+                        break
+                if not broke:
+                    yield from self._run_gen(s.orelse, env, fi)
+            elif isinstance(s, ast.While):
+                broke = False
+                n_iter = 0
+                while self._truth(self._ev(s.test, env, fi)):
+                    n_iter += 1
+                    if n_iter > 200:
+                        raise Unsupported('while loop does not terminate within 200 iterations on concrete values')
+                    try:
+                        yield from self._run_gen(s.body, env, fi)
+                    except _Continue:
+                        continue
+                    except _Break:
+                        broke = True
+                        break
+                if not broke:
+                    yield from self._run_gen(s.orelse, env, fi)
+            else:
+                raise Unsupported('yield inside %s in %s' % (type(s).__name__, fi.qualname))
+
     def _handler_for(self, handlers, exc_name, fi):
         import builtins
         for h in handlers:
@@ -463,6 +549,10 @@ class FDE:
         return bool(v)
 
     def _attr(self, base, attr, fi=None):
+        if isinstance(base, tuple) and hasattr(type(base), '_fields'):
+            if attr in type(base)._fields:
+                return getattr(base, attr)      # field of a record (namedtuple) built by the evaluated code
+            raise Unsupported('attribute %s of a record' % attr)
         if isinstance(base, tuple) and base and base[0] in ('super', 'super_ayns'):
             _, o, after = base
             if attr == 'ayns' and base[0] == 'super':
@@ -528,6 +618,8 @@ class FDE:
                 return env[e.id]
             if e.id in ('True', 'False', 'None'):
                 return {'True': True, 'False': False, 'None': None}[e.id]
+            if e.id in self.free:
+                return self.free[e.id]
             if e.id in self.repo.classes:
                 return ('class', e.id)
             if e.id in self.externals:
@@ -540,6 +632,16 @@ class FDE:
                     if key not in self.class_objs:
                         self.class_objs[key] = _re.compile(*[a.value for a in g.args])
                     return self.class_objs[key]
+                if isinstance(g, ast.Lambda) and fi.module.constant_binding(e.id) is g:
+                    from .srcmodel import FuncInfo
+                    return ('closure', FuncInfo(g, fi.module), {})
+                nt_fields = fi.module.namedtuple_fields(e.id)
+                if nt_fields is not None:
+                    key = ('global', fi.module.relpath, e.id)
+                    if key not in self.class_objs:
+                        import collections as _c
+                        self.class_objs[key] = ('ntclass', _c.namedtuple(e.id.lstrip('_') or 'Record', nt_fields, rename=True))
+                    return self.class_objs[key]
                 if isinstance(g, (ast.Dict, ast.List, ast.Tuple, ast.Constant, ast.Set)):
                     key = ('global', fi.module.relpath, e.id)
                     if key not in self.class_objs:
@@ -547,8 +649,12 @@ class FDE:
                     return self.class_objs[key]
             if e.id in ('list', 'dict', 'tuple', 'str', 'int', 'bytes', 'float', 'bool', 'set'):
                 return ('class', e.id)
+            if fi is not None and e.id in fi.module.functions and e.id not in fi.module.rebound:
+                return ('unbound', fi.module.functions[e.id])       # a module-level function used as a value
             raise Unsupported('free name %s in %s' % (e.id, fi.qualname if fi else '?'))
         if isinstance(e, ast.Attribute):
+            if unparse(e) in self.extcalls and getattr(self.extcalls[unparse(e)], '_fde_ok', False):
+                return self.extcalls[unparse(e)]       # an external function used as a value (alias, table entry)
             if unparse(e) in self.externals:
                 return ('ext', self.externals[unparse(e)])
             if isinstance(e.value, ast.Name) and (e.value.id, e.attr) in self.class_objs:
@@ -681,6 +787,10 @@ class FDE:
                     raise Raised('IndexError' if isinstance(b, (list, tuple, str)) else 'KeyError')
                 except TypeError:
                     raise Unsupported('subscript %r[%r]' % (b, k))
+            if isinstance(b, Obj):
+                t = self.repo.resolve(b.cls, '__getitem__') if b.cls in self.repo.classes else None
+                if t is not None or '__getitem__' in self.stubs:
+                    return self._apply(Bound(b, t, '__getitem__', False), [k], {}, e)
             raise Unsupported('subscript of %r' % (b,))
         if isinstance(e, (ast.GeneratorExp, ast.ListComp)) and len(e.generators) == 1 and not e.generators[0].is_async:
             gen = e.generators[0]
@@ -760,8 +870,54 @@ class FDE:
         raise Unsupported('comparison op')
 
     def _call(self, e, env, fi):
+        eager = self._eager_node is e
+        if isinstance(e.func, ast.Name) and e.func.id in ('list', 'tuple', 'set', 'frozenset', 'sorted') and e.func.id not in env \
+                and len(e.args) == 1 and isinstance(e.args[0], ast.Call) and not e.keywords:
+            # list(gen(...)): the generator is run to exhaustion before anything else happens - its body evaluated eagerly is exact
+            self._eager_node = e.args[0]
+        try:
+            return self._call2(e, env, fi, eager)
+        finally:
+            self._gen_once = False
+
+    def _lazy_genexp(self, g, env, fi):
+        """a generator expression as a Python generator: elements are evaluated when the consumer asks for them"""
+        gen = g.generators[0]
+        it = self._ev(gen.iter, env, fi)
+        if isinstance(it, (dict, set)):
+            it = list(it)
+        if not isinstance(it, (list, tuple)) and type(it).__name__ not in _ITER_TYPES:
+            raise Unsupported('comprehension over non-concrete iterable: ' + unparse(gen.iter))
+
+        def run():
+            for x in it:
+                env2 = dict(env)
+                self._assign(gen.target, x, env2, fi)
+                if all(self._truth(self._ev(c, env2, fi)) for c in gen.ifs):
+                    yield self._ev(g.elt, env2, fi)
+        return run()
+
+    def _call2(self, e, env, fi, eager):
         f = e.func
         args = []
+        if isinstance(f, ast.Name) and f.id in ('any', 'all', 'next') and f.id not in env and e.args and isinstance(e.args[0], ast.GeneratorExp) \
+                and len(e.args[0].generators) == 1 and not e.keywords:
+            # short-circuiting consumers: the elements after the deciding one are never evaluated
+            g = self._lazy_genexp(e.args[0], env, fi)
+            rest = [self._ev(a, env, fi) for a in e.args[1:]]
+            if f.id == 'next':
+                for x in g:
+                    return x
+                if rest:
+                    return rest[0]
+                raise Raised('StopIteration')
+            for x in g:
+                t = self._truth(x)
+                if f.id == 'any' and t:
+                    return True
+                if f.id == 'all' and not t:
+                    return False
+            return f.id == 'all'
         for a in e.args:
             if isinstance(a, ast.Starred):
                 v = self._ev(a.value, env, fi)
@@ -779,6 +935,21 @@ class FDE:
                 kwargs.update(v)
             else:
                 kwargs[k.arg] = self._ev(k.value, env, fi)
+        self._gen_once = eager
+        if unparse(f) in ('functools.reduce', 'reduce') and len(args) in (2, 3) and not kwargs and not (isinstance(f, ast.Name) and f.id in env):
+            it_ = list(args[1]) if isinstance(args[1], (dict, set)) or type(args[1]).__name__ in _ITER_TYPES else args[1]
+            if not isinstance(it_, (list, tuple)):
+                raise Unsupported('reduce over a non-concrete iterable')
+            it_ = list(it_)
+            if len(args) == 3:
+                acc = args[2]
+            elif it_:
+                acc = it_.pop(0)
+            else:
+                raise Raised('TypeError')
+            for x in it_:
+                acc = self._apply(args[0], [acc, x], {}, e)
+            return acc
         if unparse(f) in ('itertools.takewhile', 'takewhile', 'itertools.dropwhile', 'dropwhile', 'filter', 'map') and len(args) == 2 and isinstance(args[1], (list, tuple)) \
                 and not (isinstance(f, ast.Name) and f.id in env):
             import itertools
@@ -855,9 +1026,16 @@ class FDE:
                     if isinstance(args[0], Obj):
                         return Opaque('bool(%s)' % args[0].name)
                     return self._truth(args[0])
-                if n in ('any', 'all') and isinstance(args[0], (list, tuple)):
-                    vals = [self._truth(a) for a in args[0]]
-                    return any(vals) if n == 'any' else all(vals)
+                if n in ('any', 'all') and (isinstance(args[0], (list, tuple)) or type(args[0]).__name__ in _ITER_TYPES):
+                    for a in args[0]:
+                        t = self._truth(a)
+                        if n == 'any' and t:
+                            return True
+                        if n == 'all' and not t:
+                            return False
+                    return n == 'all'
+                if n in ('list', 'tuple') and type(args[0]).__name__ in _ITER_TYPES:
+                    return list(args[0]) if n == 'list' else tuple(args[0])
                 if n in ('list', 'tuple') and isinstance(args[0], (list, tuple)):
                     return list(args[0]) if n == 'list' else tuple(args[0])
                 if n == 'len' and isinstance(args[0], (dict, list, tuple, str)):
@@ -889,6 +1067,12 @@ class FDE:
             if targets and n in self.stubs:
                 self.effects.append(('call', n, None, tuple(args), tuple(sorted(kwargs.items(), key=lambda kv: kv[0]))))
                 return self.stub(n, None, args, kwargs) if self.stub is not None else None
+            if n not in env and fi is not None and (fi.module.namedtuple_fields(n) is not None or isinstance(fi.module.constant_binding(n), ast.Lambda)):
+                return self._apply(self._ev(f, env, fi), args, kwargs, e)
+            if n in env and isinstance(env[n], tuple) and env[n] and env[n][0] in ('unbound', 'ntclass'):
+                return self._apply(env[n], args, kwargs, e)
+            if n in env and isinstance(env[n], Bound):
+                return self._apply(env[n], args, kwargs, e)
             if n in self.repo.classes and n not in env:
                 # construction of a node class: recorded; wrapping an existing node object goes through the metaclass
                 self.effects.append(('instantiate', n, tuple(args), tuple(sorted(kwargs.items(), key=lambda kv: kv[0]))))
@@ -975,4 +1159,34 @@ class FDE:
                 except (ValueError, IndexError, KeyError, TypeError) as ex:
                     raise Raised(type(ex).__name__)
             raise Unsupported('call of %s' % unparse(f))
+        if isinstance(f, (ast.Subscript, ast.Call, ast.IfExp)):
+            return self._apply(self._ev(f, env, fi), args, kwargs, e)      # table[key](...), factory(...)(...)
         raise Unsupported('call of %s' % unparse(f))
+
+    def _apply(self, target, args, kwargs, e):
+        """call of a function *value* (taken from a dispatch table, a local, a record class)"""
+        if isinstance(target, tuple) and target and target[0] == 'closure':
+            return self._invoke(target[1], args, kwargs, base_env=target[2])
+        if isinstance(target, tuple) and target and target[0] == 'ntclass':
+            try:
+                return target[1](*args, **kwargs)
+            except TypeError:
+                raise Raised('TypeError')
+        if isinstance(target, tuple) and target and target[0] == 'unbound':
+            t = target[1]
+            if t.name not in self.stubs and t.qualname not in self.stubs:
+                return self._invoke(t, args, kwargs)
+            self.effects.append(('call', t.name, None, tuple(args), tuple(sorted(kwargs.items(), key=lambda kv: kv[0]))))
+            return self.stub(t.name, None, args, kwargs) if self.stub is not None else None
+        if isinstance(target, Bound) and (target.fi is not None or target.name in self.stubs):
+            if target.name in self.stubs or target.fi.qualname in self.stubs:
+                self.effects.append(('call', target.name, target.recv, tuple(args), tuple(sorted(kwargs.items(), key=lambda kv: kv[0]))))
+                return self.stub(target.name, target.recv, args, kwargs) if self.stub is not None else target.recv
+            if target.fi.is_static:
+                return self._invoke(target.fi, args, kwargs)
+            if target.fi.is_classmethod:
+                return self._invoke(target.fi, [('class', target.recv.cls)] + args, kwargs)
+            return self._invoke(target.fi, [target.recv] + args, kwargs)
+        if callable(target) and getattr(target, '_fde_ok', False):
+            return target(*args, **kwargs)
+        raise Unsupported('call of the value %r (%s)' % (target, unparse(e.func) if isinstance(e, ast.Call) else unparse(e)))
